@@ -762,6 +762,14 @@ func run(c Case, c09 bool) (feat map[string]int, err error) {
 			h.departed[s.pid.ID] = true
 			h.add(exp{kind: "life", text: "stopped:" + s.pid.ID})
 			h.note("successor-under-the-same-id-subscribed-from-Stopped")
+		case "subforeign":
+			// a subscriber on another node, on an engine that has no remote: nothing can be forwarded to it.
+			// Whatever the stream does about that (an EngineRemoteMissingEvent per attempt is an event again)
+			// must come to an end: the finiteness rounds below decide.
+			fp := actor.NewPID("other:4000", fmt.Sprintf("far/sub%d", op.I))
+			e.Subscribe(fp)
+			h.departed[fp.ID] = true
+			h.note("subscriber-with-a-foreign-address")
 		case "stopsub":
 			if s.gone {
 				continue
@@ -830,8 +838,8 @@ func (h *harness) compare(i int, log []rec, want []exp) error {
 		for li < len(log) {
 			r := &log[li]
 			li++
-			if r.kind == "dl" && r.tgt != nil && h.departed[r.tgt.ID] {
-				continue // an event forwarded to a subscriber that left: allowed, bounded above
+			if (r.kind == "dl" || r.kind == "rm") && r.tgt != nil && h.departed[r.tgt.ID] {
+				continue // an event forwarded to a subscriber that left / that nobody can reach: allowed, bounded above
 			}
 			if r.kind == "life" && !strings.Contains(r.text, ":tmp/") && !strings.HasPrefix(r.text, "stopped:sub/") {
 				continue // lifecycle of the harness's own actors (a subscriber that leaves is part of the history)
@@ -894,12 +902,12 @@ func genCase(t *rapid.T, c09 bool) Case {
 	n := rapid.IntRange(1, 14).Draw(t, "nops")
 	kinds := []string{"sub", "sub", "sub", "unsub", "unsub", "bcast", "bcast", "bcast", "burst", "burst", "life", "life", "heir", "stopsub"}
 	if c09 {
-		kinds = []string{"sub", "sub", "unsub", "bcast", "send", "send", "send", "send", "stopsub", "life", "heir"}
+		kinds = []string{"sub", "sub", "unsub", "bcast", "send", "send", "send", "send", "stopsub", "life", "heir", "subforeign"}
 	}
 	for i := 0; i < n; i++ {
 		op := Op{K: rapid.SampledFrom(kinds).Draw(t, "k")}
 		switch op.K {
-		case "sub", "unsub", "stopsub", "heir":
+		case "sub", "unsub", "stopsub", "heir", "subforeign":
 			op.I = rapid.IntRange(0, c.Subs-1).Draw(t, "i")
 			if op.K != "stopsub" && op.K != "heir" {
 				op.Copy = rapid.Bool().Draw(t, "copy")
